@@ -379,3 +379,48 @@ def check_mod0_base(db, rep, rule):
     if n < 4:
         raise AnalysisBroken("only %d mod=0 ModRM emissions with a register base found" % n)
     return n
+
+
+def check_save_restore(db, funcs, rep, rule):
+    """Inside an emitter, a fixed machine register that is parked (pushed, or stored into an executor slot) and later brought
+    back must come back from the same place into the same register: pops mirror pushes (LIFO), and a slot is reloaded into
+    the register that was stored there.  Anything else hands the generated code two swapped registers (e.g. rax/rdx, which
+    hold array pointers)."""
+    n = 0
+    for f in funcs:
+        calls = sorted([c for c in f.calls() if c.name in ("orc_x86_emit_push", "orc_x86_emit_pop", "orc_x86_emit_mov_reg_memoffset", "orc_x86_emit_mov_memoffset_reg")],
+                       key=lambda c: (c.line, c.id))
+        if not any(c.name in ("orc_x86_emit_push", "orc_x86_emit_pop") for c in calls) and \
+                not any(c.name == "orc_x86_emit_mov_reg_memoffset" and strip_casts(c.args()[2]).v is not None and "exec_reg" in unparse(c.args()[4]) for c in calls):
+            continue
+        stack, slots, bad = [], {}, []
+        judged = 0
+        for c in calls:
+            a = c.args()
+            if c.name == "orc_x86_emit_push":
+                stack.append(unparse(strip_casts(a[2])))
+            elif c.name == "orc_x86_emit_pop":
+                r = unparse(strip_casts(a[2]))
+                judged += 1
+                if not stack:
+                    bad.append("pop %s without a matching push (line %d)" % (r, c.line))
+                else:
+                    top = stack.pop()
+                    if top != r:
+                        bad.append("pop %s where the top of the stack holds %s (line %d)" % (r, top, c.line))
+            elif c.name == "orc_x86_emit_mov_reg_memoffset" and strip_casts(a[2]).v is not None and "exec_reg" in unparse(a[4]):
+                slots[unparse(strip_casts(a[3]))] = unparse(strip_casts(a[2]))
+            elif c.name == "orc_x86_emit_mov_memoffset_reg" and strip_casts(a[4]).v is not None and "exec_reg" in unparse(a[3]):
+                off, r = unparse(strip_casts(a[2])), unparse(strip_casts(a[4]))
+                if off in slots:
+                    judged += 1
+                    if slots[off] != r:
+                        bad.append("slot %s holds %s but is reloaded into %s (line %d)" % (off, slots[off], r, c.line))
+        if stack:
+            bad.append("registers %s pushed and never popped" % stack)
+        if judged or bad:
+            n += 1
+            rep.check(not bad, rule, "%s::%s" % (f.relfile, f.name), "save-restore",
+                      "every parked register comes back from where it was put (%d restores)" % judged,
+                      "%s: %s -- the generated code continues with swapped or lost register contents" % (f.name, "; ".join(bad)), line=calls[0].line if calls else None)
+    return n
